@@ -2,6 +2,7 @@
 CONSTANTS
     MaxLen = 2
     Mode = "reapply"
+    RawNorm = "copy"
     ResultIds = {1, 2, 3, 4, 5, 6, 7, 8, 9, 10}
     EmitOn = TRUE
 INIT Init
@@ -9,6 +10,7 @@ NEXT Next
 INVARIANT HistoryFree
 INVARIANT Repeatable
 INVARIANT Theorems
+INVARIANT ResultUnchanged
 INVARIANT EmitTable
 INVARIANT EmitSeq
 CHECK_DEADLOCK FALSE
